@@ -39,7 +39,28 @@ HM = "MiniMcmcVerif.HMC."
 
 DA = "MiniMcmcVerif.DualAvg."
 
+NU = "MiniMcmcVerif.NUTS."
+
 PROPS = {
+    "C03": {
+        "obligations": [NU + n for n in ["buildTree_succ", "bt_stop", "bt_go", "buildTree_counts", "buildTree_prime_mem", "buildTree_sel_suffix", "buildTree_prime_admissible",
+                                         "buildTree_s_no_divergence", "buildTree_size", "buildTree_leaves_chain", "buildTree_alpha_range", "doubling_pos",
+                                         "adopted_has_admissible", "loop_invariant"]],
+        "rel32": 3e-3, "abs32": 1e-3, "rel64": 2e-5, "abs64": 2e-6,
+        "timeout": 3000,
+        "level_text": "Theorems (induction on the tree depth; every target, start point, step size, direction, slice level, stream of selection uniforms in [0,1); any ordered field with any exp): the points a subtree visits are the "
+                      "leapfrog trajectory from its start in its direction (k-th point = k+1 steps; outer/inner ends = last/first), 2^j of them when complete; n_alpha is their number, n' the number of slice-admissible ones, alpha the sum of "
+                      "min(1, exp(joint - joint0)); the candidate is one of them and is slice-admissible whenever n' > 0; s' = true implies no point diverged (joint > logu - 1000); alpha/n_alpha lies in [0,1]; after a doubling the position is the "
+                      "old one or the candidate of a subtree with s' = true, adopted only if u < min(1, n'/n) (which forces n' > 0); loop invariant for the whole transition. Tied to nuts.rs by replaying every traced transition "
+                      "(momentum, Exp(1) draw, every direction / selection / accept uniform from the hook) and direct build_tree calls at Float with closed-form gradients.",
+        "level_note": "Partial: uniformity of the selection among admissible points (probability 1/n' per point) is not proved — the selection rule u < n''/(n'+n'') is mirrored and compared exactly; termination of the doubling loop "
+                      "is not a theorem (fuel). Comparisons that change under a rounding-sized perturbation of the inputs are classified indeterminate.",
+        "rule": "chains on 2-D Gaussians, Rosenbrock2D, RosenbrockND, random SPD Gaussians (dim 1-8), Student-t, quartic; 10 (thorough 24) consecutive transitions after init_chain with warm-up 0-12, step size from the chain's own "
+                "adaptation plus injected extremes (2-50: immediate U-turn/divergence; 1e-3..1e-2: deep trees); direct build_tree calls with depth 0-7 (thorough 10), both directions, step sizes incl. 1-30, slice levels at the divergence "
+                "bound +-1 and above the start; f32 and f64; distinct by (type, target, dim/depth, seed)",
+        "trusted": ["burn autodiff (gradients; cross-checked under C15)", "rounding not modelled (perturbation-based classification of knife-edge comparisons)"],
+        "assumptions": ["uniform variates lie in [0,1)"],
+    },
     "C04": {
         "obligations": [DA + n for n in ["adaptStep_counters", "eps_pos_step", "eps_pos", "eps_frozen_step", "eps_frozen", "second_run_no_adapt", "hbar_step",
                                          "hbar_closed_form", "hbar_bounded", "log_eps_dual_avg", "initChain_spec"]],
